@@ -8,7 +8,7 @@ import graphreplay
 import tlc
 
 
-def _stage(dot, adapter_mod, factory, args, preload):
+def _stage(dot, adapter_mod, factory, args, preload, lookahead=0):
     import qvimport
     qvimport.install('guard')
     for m in preload:
@@ -16,10 +16,10 @@ def _stage(dot, adapter_mod, factory, args, preload):
     mod = importlib.import_module(adapter_mod)
     make = getattr(mod, factory)
     g = graphreplay.load_dot(dot)
-    res = graphreplay.replay(g, lambda: make(*args))
+    res = graphreplay.replay(g, lambda: make(*args), lookahead=lookahead)
     devs = []
     for d in res['deviations']:
-        labs = graphreplay.path_labels(g, res, d['src'], d['ei'])
+        labs = graphreplay.path_labels(g, res, d['src'], d['ei'], d.get('path'))
         if labs and not any('(' in l for l in labs):
             # actions without parameters in their label: describe the steps by the `out` variable
             nodes = [d['src']]
@@ -27,23 +27,23 @@ def _stage(dot, adapter_mod, factory, args, preload):
                 nodes.insert(0, res['tree_path'](nodes[0])[-1][0]) if False else None
                 break
             outs = []
-            for (s_, e_) in res['tree_path'](d['src']) + [(d['src'], d['ei'])]:
+            for (s_, e_) in graphreplay.path_edges(res, d):
                 o = g.nodes[g.out[s_][e_][0]].get('out', {})
                 outs.append('%s(%s)' % (o.get('act', '?'), ', '.join(str(o[k]) for k in ('a', 'b', 'c') if o.get(k))))
             labs = outs
         devs.append(dict(dev=d['dev'], path=labs))
-    crashes = [graphreplay.path_labels(g, res, c['src'], c['ei']) for c in res['crashes']]
+    crashes = [graphreplay.path_labels(g, res, c['src'], c['ei'], c.get('path')) for c in res['crashes']]
     sample = []
     for s in list(g.out)[3:6]:
         if g.out[s]:
             sample.append(graphreplay.path_labels(g, res, s, 0))
     return dict(edges=res['edges'], nodes=res['nodes'], nedges=g.nedges, deviations=devs, crashes=crashes,
                 harness=res['harness'], tasks=res['tasks'], wall=res['wall'], sample=sample,
-                divs=qvimport.drain_div_events())
+                divs=qvimport.drain_div_events(), lookahead_steps=res.get('lookahead_steps', 0))
 
 
 def run(ctx, module, cfg_text, name, adapter, what, preload=('quantity',), sigprefix=None, kind=None,
-        replay_info=None):
+        replay_info=None, lookahead=0):
     """adapter = (module name, factory name, args tuple)."""
     wd = tlc.new_workdir('%s-%s' % (module, name))
     dot = os.path.join(wd, 'graph.dot')
@@ -53,12 +53,15 @@ def run(ctx, module, cfg_text, name, adapter, what, preload=('quantity',), sigpr
     if not ok:
         return None
     ctx.log('%s[%s]: %d states; executing every transition against the library' % (module, name, r.distinct))
-    res = forkpool.run_stage(_stage, dot, adapter[0], adapter[1], adapter[2], list(preload))
+    res = forkpool.run_stage(_stage, dot, adapter[0], adapter[1], adapter[2], list(preload), lookahead)
     os.unlink(dot)
     ctx.log('%s[%s]: %d edges executed (%d in graph), %d deviations, %.1fs' % (
         module, name, res['edges'], res['nedges'], len(res['deviations']), res['wall']))
     ctx.traces += res['tasks']
-    ctx.evaluations += res['edges']
+    ctx.evaluations += res['edges'] + res.get('lookahead_steps', 0)
+    if res.get('lookahead_steps'):
+        ctx.notes.append('%s[%s]: %d additional steps executed below non-tree edges (lookahead %d)' % (
+            module, name, res['lookahead_steps'], lookahead))
     ctx.nontrivial.update('%s:%s:%d' % (module, name, k) for k in range(res['edges']))
     for s in res['sample']:
         ctx.sample(dict(module=module, config=name, behaviour=[l[:90] for l in s]))
